@@ -4,6 +4,7 @@ import math
 from collections.abc import Callable
 from typing import SupportsInt
 
+from opensquirrel.common import normalize_angle
 from opensquirrel.ir import BlochSphereRotation, ControlledGate, Float, Gate, Int, QubitLike, named_gate
 
 
@@ -99,15 +100,16 @@ def CZ(control: QubitLike, target: QubitLike) -> ControlledGate:
 
 @named_gate
 def CR(control: QubitLike, target: QubitLike, theta: Float) -> ControlledGate:
+    angle = normalize_angle(theta.value)
     return ControlledGate(
         control,
-        BlochSphereRotation(qubit=target, axis=(0, 0, 1), angle=theta.value, phase=theta.value / 2),
+        BlochSphereRotation(qubit=target, axis=(0, 0, 1), angle=angle, phase=angle / 2),
     )
 
 
 @named_gate
 def CRk(control: QubitLike, target: QubitLike, k: SupportsInt) -> ControlledGate:
-    theta = 2 * math.pi / (2 ** Int(k).value)
+    theta = normalize_angle(2 * math.pi / (2 ** Int(k).value))
     return ControlledGate(control, BlochSphereRotation(qubit=target, axis=(0, 0, 1), angle=theta, phase=theta / 2))
 
 
